@@ -136,6 +136,73 @@ impl Gen for WithHeaderBody {
     }
 }
 
+// optional fields in the header: an absent one is left out of the header (the count announced to the writer
+// must leave it out too)
+#[derive(Form, Debug, PartialEq, Clone)]
+struct OptHeader {
+    #[form(header)]
+    h: Option<i32>,
+    #[form(header)]
+    g: Option<String>,
+    a: i64,
+}
+impl Gen for OptHeader {
+    fn gen(rng: &mut Rng) -> Self {
+        OptHeader { h: Gen::gen(rng), g: Gen::gen(rng), a: Gen::gen(rng) }
+    }
+}
+
+#[derive(Form, Debug, PartialEq, Clone)]
+struct OnlyOptHeader {
+    #[form(header)]
+    h: Option<i32>,
+}
+impl Gen for OnlyOptHeader {
+    fn gen(rng: &mut Rng) -> Self {
+        OnlyOptHeader { h: Gen::gen(rng) }
+    }
+}
+
+#[derive(Form, Debug, PartialEq, Clone)]
+struct OptHeaderWithBody {
+    #[form(header_body)]
+    hb: i32,
+    #[form(header)]
+    h: Option<String>,
+    #[form(header)]
+    k: Option<i32>,
+    a: Option<bool>,
+}
+impl Gen for OptHeaderWithBody {
+    fn gen(rng: &mut Rng) -> Self {
+        OptHeaderWithBody { hb: Gen::gen(rng), h: Gen::gen(rng), k: Gen::gen(rng), a: Gen::gen(rng) }
+    }
+}
+
+#[derive(Form, Debug, PartialEq, Clone)]
+struct OptHeaderBody {
+    #[form(header_body)]
+    hb: Option<i32>,
+    a: i64,
+}
+impl Gen for OptHeaderBody {
+    fn gen(rng: &mut Rng) -> Self {
+        OptHeaderBody { hb: Gen::gen(rng), a: Gen::gen(rng) }
+    }
+}
+
+#[derive(Form, Debug, PartialEq, Clone)]
+struct OptAttr {
+    #[form(attr)]
+    x: Option<i32>,
+    b: Option<String>,
+}
+impl Gen for OptAttr {
+    fn gen(rng: &mut Rng) -> Self {
+        OptAttr { x: Gen::gen(rng), b: Gen::gen(rng) }
+    }
+}
+
 #[derive(Form, Debug, PartialEq, Clone)]
 struct OnlyHeaderBody {
     #[form(header_body)]
@@ -573,6 +640,11 @@ fn main() {
     battery::<WithHeader>(&mut ctx, "WithHeader", n);
     battery::<WithHeaderBody>(&mut ctx, "WithHeaderBody", n);
     battery::<OnlyHeaderBody>(&mut ctx, "OnlyHeaderBody", n);
+    battery::<OptHeader>(&mut ctx, "OptHeader", 2 * n);
+    battery::<OnlyOptHeader>(&mut ctx, "OnlyOptHeader", n);
+    battery::<OptHeaderWithBody>(&mut ctx, "OptHeaderWithBody", 2 * n);
+    battery::<OptAttr>(&mut ctx, "OptAttr", n);
+    battery::<OptHeaderBody>(&mut ctx, "OptHeaderBody", n);
     battery::<WithAttr>(&mut ctx, "WithAttr", n);
     battery::<WithBody>(&mut ctx, "WithBody", n);
     battery::<BodyVec>(&mut ctx, "BodyVec", n);
